@@ -146,10 +146,13 @@ CHECKS["C04"] = dict(
           "a hook counts persistent mutation points (file create/write/close/remove, mkdir, Badger set/delete/transaction before and after) across all goroutines and the child SIGKILLs itself at the n-th: EVERY n from 1 to the count of the uncrashed run (+2) is enumerated per workload; "
           "for a sample of crash points every crash index inside the recovery open is enumerated on copies of the crashed directory. "
           "Oracle: the parent knows the acknowledged prefix and the at most one in-flight step from the pipe; after a clean reopen GetKeys/Get of all keys must equal the model after the prefix, or after prefix + in-flight step (autocommit write or Commit: all keys together or none); every listed key readable and complete; a second reopen gives the same state. "
+          "Sets/Deletes inside a running Badger transaction are mutation points too (nothing of the transaction may be visible after a kill there); half of the workloads contain an 'overtaken commit' fragment (a ReadUncommitted/ReadCommitted transaction writes, somebody commits a newer value, the transaction commits). "
+          "part 'bulk': one transaction writes 40-600 fresh keys with names of 20-40 KB, so that its version records approach or exceed what one Badger transaction holds (about 10 MB; fs_db then refuses the Commit as a whole, which the child acknowledges as failed); crash points are sampled: 6-10 inside the Commit plus as many over the rest of the run. "
           "one evaluation = one workload (counters give the number of child runs); non-trivial = some crash landed after the first step started and before the last was acknowledged."),
     assumptions=["process kill only: the page cache survives (power loss / fsync ordering is outside the statement and cannot be injected here)",
                  "crash positions are counted globally, so background cleaner mutations are crash points too; their interleaving is not controlled, the replay re-runs the same workload and index"],
-    parts=[P("crash", "seq", "TestC04", dict(checks=16, shards=8, timeout=900, shrinktime="30s"), dict(checks=320, shards=16, timeout=3400, shrinktime="60s"))],
+    parts=[P("crash", "seq", "TestC04", dict(checks=16, shards=8, timeout=900, shrinktime="30s"), dict(checks=320, shards=16, timeout=3400, shrinktime="60s")),
+           P("bulk", "seq", "TestC04Bulk", dict(checks=2, shards=2, timeout=900, shrinktime="1s"), dict(checks=16, shards=16, timeout=3400, shrinktime="1s"))],
 )
 
 _E4_DIRS = ["internal/model/core", "internal/model/sequence", "internal/usecase/core", "internal/usecase/store", "internal/usecase/transaction",
